@@ -7,6 +7,7 @@ import (
 	"sort"
 	"strings"
 	"testing"
+	dt "verifharness/dertree"
 
 	"github.com/zmap/zlint/v3/lint"
 	"pgregory.net/rapid"
@@ -236,6 +237,74 @@ func TestC04(t *testing.T) {
 					noteNT(c, run, bs)
 					if k%131 == 0 {
 						rec.Sample(sampleCase(c, map[string]interface{}{"statuses": statusCounts(engine.Verdicts(run.RS))}))
+					}
+				}
+			}
+		}
+	}
+	// (a'') identifiers that coincide with a scope OID (policy or EKU) once arcs are packed into machine words
+	// must not open or close a scope: every relative, as the only policy (EKU = clientAuth / none / as the base
+	// has it) and as the only EKU, with and without a mailbox
+	{
+		type arith struct {
+			pol [][]int
+			eku []int
+		}
+		var sets []arith
+		for _, o := range gen.ScopePolicyOIDs {
+			for _, r := range gen.ArithRelatives(o) {
+				sets = append(sets, arith{pol: [][]int{r}})
+			}
+		}
+		for _, o := range gen.AllEKUs {
+			for _, r := range gen.ArithRelatives(o) {
+				sets = append(sets, arith{eku: r})
+			}
+		}
+		for _, b := range bases {
+			bs := baseStage(b)
+			for si, a := range sets {
+				for m := 0; m < 2; m++ {
+					for e := 0; e < 2; e++ {
+						k++
+						if !stats.Mine(k) {
+							continue
+						}
+						v, err := gen.ViewCert(b.DER)
+						if err != nil {
+							continue
+						}
+						switch {
+						case a.eku != nil:
+							v.SetEKU(a.eku)
+							if e == 1 {
+								v.SetPolicies()
+							}
+						case e == 0:
+							v.SetEKU(gen.EKUClientAuth)
+							v.SetPolicies(a.pol...)
+						default:
+							v.SetEKU(gen.EKUTimeStamp)
+							v.SetPolicies(a.pol...)
+						}
+						gns := []*dt.Node{gen.GNDNS([]byte("scope.example.com"))}
+						if m == 1 {
+							gns = append(gns, gen.GNEmail([]byte("user@example.com")))
+						}
+						v.SetSAN(false, gns...)
+						if pc, ok := gen.ParseCert(b.DER); ok && pc.SelfSigned {
+							v.SelfSign()
+						}
+						c := engine.Case{Kind: gen.Cert, DER: v.DER(), Base: b.Name, Ops: []string{fmt.Sprintf("scope arithmetic relative #%d policy=%v eku=%v mail=%d", si, a.pol, a.eku, m)}}
+						rec.Eval()
+						rec.Class("matrix_arith")
+						sig, msg, run := judgeLifecycle(rec, c)
+						if msg != "" {
+							if rec.Report("c04", sig, msg, c) {
+								t.Fatalf("c04 arithmetic relative %s %v: %s: %s", b.Name, c.Ops, sig, msg)
+							}
+						}
+						noteNT(c, run, bs)
 					}
 				}
 			}
